@@ -845,8 +845,17 @@ static void cmd_fdf(int nt, char **t)
 		le = json_util_get_last_err();
 		ob_printf(&out, "= obj=%d lasterr=%d opens=%ld closes=%ld", o != NULL, le != NULL, vf_open_calls - o0, vf_close_calls - c0);
 		json_object_put(o);
+	} else if (mode == 3) {
+		/* no object: json_object_to_file[_ext](path, NULL) fails, and it fails before touching the file system */
+		struct stat sb; int existed, rc, rc2;
+		unlink(path); existed = stat(path, &sb) == 0;
+		rc = json_object_to_file_ext(path, NULL, nt > 3 ? (int)L(t[3]) : 0); rc2 = json_object_to_file(path, NULL);
+		ob_printf(&out, "= rc=%d rc2=%d created=%d lasterr=%d opens=%ld closes=%ld", rc, rc2, !existed && stat(path, &sb) == 0, json_util_get_last_err() != NULL, vf_open_calls - o0, vf_close_calls - c0);
+		unlink(path);
 	} else {
 		int flags = nt > 3 ? (int)L(t[3]) : 0; long prefill = nt > 4 ? L(t[4]) : 0; int plain = nt > 5 ? (int)L(t[5]) : 0; int rc; struct json_object *o;
+		int saved0 = -1;
+		if (mode == 4) { saved0 = dup(0); close(0); }   /* a process without standard input: the next descriptor handed out is 0 */
 		int raw_eq = -1; long fsize = -1; size_t wlen = 0; const char *want;
 		if (prefill > 0) {  /* the path already holds an older, longer file (the harness's own open/write are not intercepted) */
 			int fd = open(path, O_WRONLY | O_CREAT | O_TRUNC, 0644); char blk[512]; long left = prefill; memset(blk, 'Z', sizeof blk);
@@ -865,6 +874,7 @@ static void cmd_fdf(int nt, char **t)
 		le = json_util_get_last_err();
 		ob_printf(&out, "= rc=%d obj=%d eq=%d lasterr=%d opens=%ld closes=%ld raw_eq=%d fsize=%ld want=%zu", rc, o != NULL, json_object_equal(o, H[0]), le != NULL, vf_open_calls - o0, vf_close_calls - c0, raw_eq, fsize, wlen);
 		json_object_put(o); unlink(path);
+		if (mode == 4 && saved0 >= 0) { dup2(saved0, 0); close(saved0); }
 	}
 	free(path);
 }
@@ -1002,8 +1012,8 @@ static void cmd_gstrc(int nt, char **t)
 /* SSELF <h> <n>   json_object_set_string_len(o, json_object_get_string(o), n): the node's own bytes handed back to it (truncation in place) */
 static void cmd_sself(int nt, char **t)
 {
-	int h = hidx(t[1]); int r; (void)nt;
-	r = json_object_set_string_len(H[h], json_object_get_string(H[h]), (int)LL(t[2]));
+	int h = hidx(t[1]); int r;
+	r = json_object_set_string_len(H[h], json_object_get_string(H[h]) + (nt > 3 ? LL(t[3]) : 0), (int)LL(t[2]));   /* optional offset: a later, non-overlapping part of the own bytes */
 	ob_printf(&out, "= %d", r);
 }
 /* GSTR <h> -> = <len> <hex bytes[0..len)> term=<byte at len> */
@@ -1018,8 +1028,10 @@ static void cmd_failnext(int nt, char **t) { long k = L(t[1]); (void)nt; if (k >
 /* ---- equality / copy (C09) ---- */
 static void cmd_eq(int nt, char **t) { (void)nt; ob_printf(&out, "= %d", json_object_equal(H[hidx(t[1])], H[hidx(t[2])])); }
 static long copy_uid_next;
+static long copy_fail_at, copy_calls;
 static int tracking_shallow_copy(json_object *src, json_object *parent, const char *key, size_t index, json_object **dst)
 {
+	if (copy_fail_at > 0 && ++copy_calls == copy_fail_at) return -1;   /* a callback that gives up on its k-th node, without touching *dst */
 	int rc = json_c_shallow_copy_default(src, parent, key, index, dst);
 	if (rc >= 1 && *dst && uid_of(src) > 0 && json_object_get_type(src) != json_type_double) { json_object_set_userdata(*dst, (void *)(intptr_t)(copy_uid_next++), del_cb); return 2; }
 	return rc;
@@ -1029,8 +1041,10 @@ static void cmd_dcopy(int nt, char **t)
 {
 	int hs = hidx(t[1]), hd = hidx(t[2]); int mode = (int)L(t[3]); struct json_object *d = NULL; int rc;
 	if (nt > 4) copy_uid_next = L(t[4]);
+	copy_fail_at = (mode == 2 && nt > 5) ? L(t[5]) : 0; copy_calls = 0;
 	errno = 0;
 	rc = json_object_deep_copy(H[hs], &d, mode ? tracking_shallow_copy : NULL);
+	copy_fail_at = 0;
 	H[hd] = d; Hset[hd] = 1;
 	ob_printf(&out, "= %d %d", rc, errno); emit_dlog();
 }
